@@ -42,6 +42,10 @@ type CrowdPlan struct {
 	// hostile datagrams sent after the crowd (C01/C02): Size octets of
 	// header-only sets for unknown template ids
 	ManySets []int `json:"many_sets,omitempty"`
+	// Flood (IPFIX, NetFlow v9): after the first exporter, Flood further
+	// exporters each announce a one-field template under every id from 256 to
+	// 65535 (hundreds of thousands of cache entries) before the crowd follows
+	Flood int `json:"flood,omitempty"`
 	Seed     int64 `json:"seed"`
 }
 
@@ -66,6 +70,12 @@ func genCrowdFor(prop, tier string, seed int64) []byte {
 	if prop == "C01" || prop == "C02" {
 		p.Proto = []string{pIPFIX, pNF9}[r.Intn(2)]
 	}
+	if prop == "C03" {
+		p.Proto = pIPFIX
+	}
+	if prop == "C06" {
+		p.Proto = pNF9
+	}
 	switch k := r.Intn(20); {
 	case k < 12:
 		p.N = 20 + r.Intn(280)
@@ -75,6 +85,12 @@ func genCrowdFor(prop, tier string, seed int64) []byte {
 		p.N = 4100 + r.Intn(2900)
 	}
 	p.Revisit = 1 + r.Intn(60)
+	if r.Intn(80) == 0 {
+		p.Flood = []int{1, 3, 6, 10}[r.Intn(4)]
+		if p.N > 300 {
+			p.N = 20 + r.Intn(280)
+		}
+	}
 	c := &NodeCfg{ExtElements: p.ExtElements}
 	im := modelIM(c)
 	switch p.Proto {
@@ -116,6 +132,21 @@ func genCrowdFor(prop, tier string, seed int64) []byte {
 	}
 	b, _ := json.Marshal(p)
 	return b
+}
+
+// floodTemplates is one message announcing a one-field template under every
+// id in [first, last).
+func floodTemplates(proto string, first, last int) []byte {
+	var recs []byte
+	for id := first; id < last; id++ {
+		recs = append(recs, byte(id>>8), byte(id), 0, 1, 0, 2, 0, 2) // id, one field: element 2 (packetDeltaCount), 2 octets
+	}
+	if proto == pNF9 {
+		b := nf9Msg(7, ipfixSet(0, recs))
+		binary.BigEndian.PutUint16(b[2:], uint16(last-first))
+		return b
+	}
+	return ipfixMsg(7, ipfixSet(2, recs))
 }
 
 // manySetsDatagram is a message of the protocol made of header-only sets for
@@ -218,6 +249,21 @@ func execCrowd(t *testing.T, prop string, planJSON []byte, ch *simrt.Choices, tr
 				if i%64 == 0 {
 					simrt.Yield(-95)
 				}
+				if i == 1 && p.Flood > 0 && (p.Proto == pIPFIX || p.Proto == pNF9) {
+					for e := 0; e < p.Flood; e++ {
+						fip := net.IP{198, 18, byte(p.AddrBase), byte(1 + e)}
+						for first := 256; first < 65536; first += 7000 {
+							simrt.Refill()
+							last := first + 7000
+							if last > 65536 {
+								last = 65536
+							}
+							dc.decodeOne(p.Proto, fip, floodTemplates(p.Proto, first, last))
+							calls++
+						}
+					}
+					out.Faults["template-flood-exporters"] += p.Flood
+				}
 				ip := crowdAddr(p.AddrBase, i)
 				for k := range p.Items {
 					if !one(i, ip, k, false) || len(findings) > 0 {
@@ -263,6 +309,7 @@ func execCrowd(t *testing.T, prop string, planJSON []byte, ch *simrt.Choices, tr
 			}
 		})
 		sim.OnIdle = func() bool { return done }
+		sim.MaxSteps = 200000000 // a template flood is millions of lock operations
 		sim.Run()
 		unfinished = !done
 		steps = sim.Seq
@@ -314,6 +361,11 @@ func shrinkCrowd(planJSON []byte) [][]byte {
 			emit(q)
 		}
 	}
+	if p.Flood > 0 {
+		q := p
+		q.Flood = p.Flood - 1
+		emit(q)
+	}
 	for i := range p.ManySets {
 		q := p
 		q.ManySets = append(append([]int(nil), p.ManySets[:i]...), p.ManySets[i+1:]...)
@@ -334,4 +386,6 @@ func init() {
 	register("C12", scCrowd, 1)
 	register("C01", scCrowd, 1)
 	register("C02", scCrowd, 1)
+	register("C03", scCrowd, 1)
+	register("C06", scCrowd, 1)
 }
